@@ -279,6 +279,9 @@ def gen_patchset(rng, ws, want_dup=None):
     kinds_all = []
     for nme, val in zip(names, values):
         ops, kinds = gen_ops(rng, ws)
+        if rng.random() < (0.5 if (want_dup and not patches) else 0.12):
+            # a patch without operations is schema-valid: it stands for the background-only point itself
+            ops, kinds = [], ["empty"]
         kinds_all.append(kinds)
         md = {"name": nme, "values": val}
         if rng.random() < 0.3:
